@@ -32,6 +32,8 @@ type selCase struct {
 	Series   []*mSeries `json:"series"`
 	Matchers []pmatcher `json:"matchers"`
 	Hints    selHints   `json:"hints"`
+	// Twins: label set that two fingerprints carry ("" = none)
+	Twins string `json:"twins,omitempty"`
 }
 
 // the functions for which processHints buckets the samples per step before the engine sees them
@@ -165,6 +167,29 @@ func genSelCase(r *rand.Rand, gi int) selCase {
 			s.Samples = append(s.Samples, mSample{Ms: t, V: float64(r.Intn(2000)) / 4})
 		}
 	}
+	// twins: a second fingerprint for the label set of the series with the smallest fingerprint, larger than every
+	// other (two writers with different fingerprint settings, or a changed hash): all other series sort between
+	// them. What the twins themselves come out as is not judged; every other series must be untouched.
+	if len(sc.Series) >= 3 && r.Intn(4) == 0 {
+		lo, hi := sc.Series[0], sc.Series[0]
+		for _, s := range sc.Series {
+			if s.FP < lo.FP {
+				lo = s
+			}
+			if s.FP > hi.FP {
+				hi = s
+			}
+		}
+		if hi.FP < 1<<64-2 && lo.isMetric() {
+			tw := &mSeries{FP: hi.FP + 1, Labels: lo.Labels, Type: lo.Type, Days: lo.Days}
+			for _, p := range lo.Samples {
+				tw.Samples = append(tw.Samples, mSample{Ms: p.Ms + 1, V: p.V + 1000})
+			}
+			used[tw.FP] = true
+			sc.Series = append(sc.Series, tw)
+			sc.Twins = labelsKey(lo.Labels)
+		}
+	}
 	// a log stream with the labels of a metric series and samples in range (noise)
 	if r.Intn(3) == 0 {
 		p := pick(r, sc.Series)
@@ -257,6 +282,10 @@ func judgeSelect(sc *selCase, out []handed) (sig, desc string, compared int, pro
 	seen := map[string]bool{}
 	for _, hd := range out {
 		k := labelsKey(hd.labels)
+		if sc.Twins != "" && k == sc.Twins {
+			probe = true // two fingerprints under one label set: not judged
+			continue
+		}
 		if seen[k] {
 			return "select/" + mode + "/series-handed-twice", fmt.Sprintf("label set %s is handed over twice", k), compared, probe
 		}
@@ -332,7 +361,7 @@ func judgeSelect(sc *selCase, out []handed) (sig, desc string, compared int, pro
 	}
 	// every matching series with a sample inside the range must be handed over
 	for k, s := range byKey {
-		if seen[k] || !promMatchAll(sc.Matchers, s.Labels) {
+		if seen[k] || !promMatchAll(sc.Matchers, s.Labels) || (sc.Twins != "" && k == sc.Twins) {
 			continue
 		}
 		in, edge := 0, false
